@@ -42,6 +42,12 @@ EXTRA = [
     'SELECT * FROM int1.t1 JOIN mindsdb.pred JOIN int2.t2 USING partition_size = 2',
     'SELECT * FROM INT1.t1 JOIN Int2.t2 ON t1.id = t2.id',
     'SELECT * FROM files.f', 'SELECT * FROM views.v JOIN int1.t1 ON v.id = t1.id',
+    # a CTE and, in another statement, a real table of the same name (default namespace / another integration)
+    'WITH orders AS (SELECT * FROM int1.t1 WHERE a = 1) SELECT * FROM orders JOIN int2.t2 ON orders.id = t2.id',
+    'SELECT * FROM orders JOIN int2.t2 ON orders.id = t2.id',
+    'WITH t2 AS (SELECT * FROM int1.t1) SELECT * FROM t2 JOIN int1.t3 ON t2.id = t3.id JOIN mindsdb.pred',
+    'SELECT * FROM t2 JOIN int2.t2 AS u ON t2.id = u.id',
+    'SELECT * FROM mindsdb.t2 JOIN int1.t1 ON t2.id = t1.id',
 ]
 
 
